@@ -1106,6 +1106,12 @@ def irwin_hall_cdf(x, n):
 		# Array argument: evaluate elementwise.
 		return np.array([irwin_hall_cdf(xi, n) for xi in np.ravel(x)], dtype=float).reshape(np.shape(x))
 
+	# Outside the support, the cdf is 0 or 1. (Above the support the alternating sum below is numerically unstable.)
+	if x <= 0:
+		return 0.0
+	if x >= n:
+		return 1.0
+
 	F = 0
 	for k in range(int(np.floor(x)) + 1):
 		F += ((-1) ** k) * comb(n, k) * (x - k) ** n
